@@ -7,9 +7,9 @@ from typing import List, Optional, Tuple, Union
 import numpy as np
 from affine import Affine
 
-from .crs import CRS, MaybeCRS, SomeCRS, norm_crs
+from .crs import CRS, CRSMismatchError, MaybeCRS, SomeCRS, norm_crs
 from .geobox import GeoBox, GeoBoxBase
-from .geom import Geometry, multipoint
+from .geom import Geometry, common_crs, multipoint
 from .math import Poly2d, affine_from_pts, align_up, resolution_from_affine, unstack_xy
 from .types import XY, MaybeInt, Resolution, SomeResolution, SomeShape, wh_
 
@@ -29,7 +29,8 @@ def _points_to_array(pts: SomePointSet) -> Tuple[np.ndarray, Optional[CRS]]:
             x, y = pt.xy
         return (x, y)
 
-    crs = getattr(pts[0], "crs", None)
+    # every CRS-tagged point has to be in the same CRS, not just the first one
+    crs = common_crs([pt for pt in pts if isinstance(pt, Geometry)])
     return np.asarray([_xy(pt) for pt in pts]), crs
 
 
@@ -49,6 +50,8 @@ class GCPMapping:
 
         if crs is None:
             crs = _crs
+        elif _crs is not None and norm_crs(crs) != _crs:
+            raise CRSMismatchError(norm_crs(crs), _crs)
 
         # Nx2
         assert pix.shape == wld.shape
